@@ -75,3 +75,29 @@ def check(prop, tier, replay):
                                    "critical section; every complete schedule is enumerated by TLC (250 284 for three "
                                    "workers) and a seeded sample is replayed on the real engine with a gated nodeLoader; "
                                    "the node is a skeleton (real rsm.StateMachine + NativeSM, no raft peer)"])
+
+
+def check_jobs(prop, tier, replay):
+    """snapshot job protocol (SnapshotJobs.tla): MCSnapshotJobs exhaustively + spsim (real node / snapshotState / workerPool
+    with the pool's main loop on its own goroutine, gated at its nodeLoader) judged by SnapshotJobsTrace"""
+    n, tr, st = (6, 100, 60) if tier == "quick" else (16, 400, 120)
+    batches = [{"first": k * tr, "traces": tr, "steps": st} for k in range(n)]
+    return tv_run(prop, tier, replay, harness_dirs=["root"], pkg=".", test="TestVerifSpsim",
+                  trace_module="SnapshotJobsTrace", tag="SP-REPORT", drift_tag="SP-DRIFT", batches=batches,
+                  cfg_extra="  Ablate = {}",
+                  env_of=lambda b, seed, out: {"VERIF_OUT": out, "VERIF_SEED": seed, "VERIF_FIRST": b["first"],
+                                               "VERIF_TRACES": b["traces"], "VERIF_STEPS": b["steps"]},
+                  mc=[("MCSnapshotJobs", "MC_SnapshotJobs_conc.cfg", 600, 4), ("MCSnapshotJobs", "MC_SnapshotJobs_plain.cfg", 300, 4)],
+                  mc_deadlock=False,
+                  mc_expect_violation=[("MCSnapshotJobs", "MC_SnapshotJobs_abl_recover_ignores_streams.cfg", "Inv"),
+                                       ("MCSnapshotJobs", "MC_SnapshotJobs_abl_stream_flag.cfg", "Inv"),
+                                       ("MCSnapshotJobs", "MC_SnapshotJobs_abl_save_flag.cfg", "Inv")],
+                  level="model_checking", panic_ok=True, max_workers=8, build_name="nhsim", merge_into_existing=True,
+                  what="snapshot jobs of a replica: a recover job overlapped a save / stream job, the pool's books were wrong, "
+                       "a job was forgotten or waited for nothing, or a request was not told that it was ignored / refused",
+                  sig_of=lambda op, f: "%s:snapshotjobs:%s" % (prop, op),
+                  assumptions=["SnapshotJobs.tla: one replica, the apply worker / the arms of workerPoolMain / the snapshot workers "
+                               "as operators named after the Go functions; MCSnapshotJobs checks every interleaving (exclusion of "
+                               "recover vs save / stream, books, no panic, progress under fairness) and refutes three ablations; "
+                               "spsim runs the real node + workerPool (main loop on its own goroutine, held at its nodeLoader so that "
+                               "stimuli pile up; every order the loop may pick is accepted), the jobs themselves are not executed"])
